@@ -17,7 +17,10 @@ def extra(res, facts, entries, protos):
             res.inst("C05.R1", i)
     # R6: the footer segment written by format_token is URL_SAFE_NO_PAD(F), present iff F is non-empty; R7: the PAE framing keeps the footer apart from its neighbours
     from . import c08_fpai
-    c08_fpai.format_token(res, facts, rule="C05.R6")
+    if not getattr(res, "sem_ok", False):
+        # second opinion only: when decided, producer == specification (C05.S1: the whole token text for absent / empty / present footer
+        # of all 8 producers) says more than format_token evaluated on its own
+        c08_fpai.format_token(res, facts, rule="C05.R6")
     c08_fpai.pae(res, facts, rule="C05.R7")
     # absent == empty: the expected footer enters both the comparison and the PAE through unwrap_or_default (R2 checks the PAE side)
     res.notes.append("absent == empty: the expected footer reaches the comparison and every PAE as Option::unwrap_or_default(param)")
@@ -30,4 +33,4 @@ def run(tier):
         "must-pass-through on the CFG of parse_raw_token (footer gate), provenance terms of the footer component in all 16 pre-authentication encodings "
         "(caller's expected footer on consumer sides, the builder's own footer on producer sides), identity of the Footer carrier and its base64 text, footer plumbing through the 32 wrappers and setters",
         ["MAC / signature strength: a different footer under the authenticator yields a different tag", "ring verify_slices_are_equal compares length and content", "base64 URL_SAFE_NO_PAD encoding is injective"],
-        extra, "that a different footer changes the tag / signature (cryptographic)", sem_rules={'C05.S2': 8, 'C05.S3': 8})
+        extra, "that a different footer changes the tag / signature (cryptographic)", sem_rules={'C05.S1': 8, 'C05.S2': 8, 'C05.S3': 8})
